@@ -552,4 +552,12 @@ theorem conserve_same {cfg : Config} {w w' : World} (hc : Conserve cfg w)
   rw [hchains, pendingSum_same _ hsent hothers, pendingSum_same _ hsent hothers]
   exact hc A cA B cB X hpeer hX hnp
 
+theorem voucher_coin_prefix (H : Str → Str) (d : Denom) (h : d.trace ≠ []) :
+    ibcSlash.isPrefixOf (d.ibcDenom H) = true := by
+  cases ht : d.trace with
+  | nil => exact absurd ht h
+  | cons x xs =>
+    simp only [Denom.ibcDenom, Denom.isNative, ht, List.isEmpty_cons, Bool.false_eq_true, if_false]
+    exact isPrefixOf_append_self _ _
+
 end IbcVerif.Ics20
